@@ -227,6 +227,10 @@ def run(ctx):
         systems[(kd, 1)] = CoordinateSystem(kd)
     cart_t = coordinates_transform(C, CoordinateSystem.System.CYLINDRICAL)
     systems[(CoordinateSystem.System.CYLINDRICAL, 2)] = cart_t
+    # systems of another kind that WRAP THE SAME inner SymPy system as Cartesian #0: still different coordinate systems
+    inner = systems[(CoordinateSystem.System.CARTESIAN, 0)].coord_system
+    systems[(CoordinateSystem.System.CYLINDRICAL, 3)] = CoordinateSystem(CoordinateSystem.System.CYLINDRICAL, inner)
+    systems[(CoordinateSystem.System.SPHERICAL, 3)] = CoordinateSystem(CoordinateSystem.System.SPHERICAL, inner)
     ops2 = {"add": A.add_cartesian_vectors, "subtract": A.subtract_cartesian_vectors, "dot": A.dot_vectors,
             "cross": A.cross_cartesian_vectors, "equal": A.equal_vectors, "reject": A.reject_cartesian_vector}
     n_ref = 0
@@ -361,11 +365,14 @@ from symplyphysics.core.vectors.vectors import Vector
 from symplyphysics.core.coordinate_systems.coordinate_systems import CoordinateSystem, coordinates_transform
 S = CoordinateSystem.System
 C = CoordinateSystem(S.CARTESIAN)
+SYS = {{}}
 def mk(kind, i):
-    if i == 2: return coordinates_transform(C, getattr(S, kind))
-    return CoordinateSystem(getattr(S, kind))
-s1 = mk("{k1}", {i1})
-s2 = s1 if ("{k1}", {i1}) == ("{k2}", {i2}) else mk("{k2}", {i2})
+    if (kind, i) not in SYS:
+        if i == 2: SYS[(kind, i)] = coordinates_transform(C, getattr(S, kind))
+        elif i == 3: SYS[(kind, i)] = CoordinateSystem(getattr(S, kind), mk("CARTESIAN", 0).coord_system)     # same inner SymPy system as Cartesian #0
+        else: SYS[(kind, i)] = CoordinateSystem(getattr(S, kind))
+    return SYS[(kind, i)]
+s1 = mk("{k1}", {i1}); s2 = mk("{k2}", {i2})
 v1 = Vector(sp.symbols("a0:{n1}", real=True), s1); v2 = Vector(sp.symbols("b0:{n2}", real=True), s2)
 ops = dict(add=A.add_cartesian_vectors, subtract=A.subtract_cartesian_vectors, dot=A.dot_vectors, cross=A.cross_cartesian_vectors, equal=A.equal_vectors, reject=A.reject_cartesian_vector)
 try:
